@@ -186,6 +186,10 @@ def check(run):
             w.close()
     rejects = content.judge(run, cases)
     content.report(run, "c06", cases, rejects)
+    # which segments a commit merges: MergePolicy.tla evaluated by TLC for every vector of segment sizes up to a
+    # bound, replayed on the real policy functions and, for a sample, on real indexes (spec -> code)
+    from harness import mergepolicy
+    mergepolicy.check(run, rng, quick)
 
 
 def replay(run, rp):
